@@ -30,6 +30,9 @@ OPEN_STATEMENTS = [
     '(no non-zero value deleted by the |v| < EQ_TOLERANCE test of +=); without it the statements are false by '
     'design of the library; the hypothesis is evaluated by the Model on every generated input and counted in the '
     'distribution (theorem-hypothesis exact-regime)',
+    'reverse_jw_right_inverse / reverse_jw_right_inverse_term / reverse_jw_ladder ARE theorems: jw(reverse_jw(Q)) acts like Q '
+    'for every QubitOperator of canonical X/Y/Z strings (exact-regime flags of both transforms evaluated on every input); '
+    'additionally jw(reverse_jw(Q)) == Q as dictionaries is checked exactly on the implementation',
     'reverse_jw_left_inverse is proved as an operator identity (reverse_jw(jw A) acts like A); the literal statement '
     '"normal_ordered(reverse_jw(jw A)) == normal_ordered(A) as dictionaries" additionally needs the uniqueness of normal '
     'ordered forms (property C03) and is checked exactly on random A',
@@ -604,6 +607,15 @@ def stream_reverse(ctx):
         n = max(modes_of(jQ), modes_of(jF))
         b.add('reverse_jordan_wigner', case, jF, {'op': 'c04.reverse', 'Q': jQ},
               oracle('fermion', n, ['op', jF], jQ), canonical=False, regime_req={'op': 'c04.reverse_ok', 'Q': jQ})
+        # right inverse: jordan_wigner(reverse_jordan_wigner(Q)) acts like Q (reverse_jw_right_inverse)
+        ok, Q2 = call(st, 'jordan_wigner(reverse_jordan_wigner(Q))', case, lambda: jw(F))
+        if ok:
+            st.count('right-inverse')
+            jQ2 = enc_op('qubit', Q2.terms)
+            b.add('jordan_wigner(reverse_jordan_wigner(Q))', case, jQ2, {'op': 'c04.fermion', 'A': jF},
+                  oracle('qubit', n, ['op', jQ], jQ2), regime_req={'op': 'c04.fermion_ok', 'A': jF})
+            if canon_nz(jQ2) != canon_nz(jQ):
+                st.violate('jordan_wigner(reverse_jordan_wigner(Q)) != Q as dictionaries', case, {'result': jQ2})
     b.flush()
     rng = rng_for(ctx.seed, 'c04-roundtrip')
     for _ in range(budget(ctx.tier, 40, 400)):
